@@ -74,7 +74,10 @@ class LoggerModel(ClassModel):
                 o.fields["g_last_status"] = ro.fields.get("status", NONE)
             bad = st.fork()
             return [ex.res(st, NONE)]
-        if meth in ("debug", "info", "warning", "error", "critical", "exception", "log"):
+        if meth in ("debug", "info", "warning", "error", "critical", "exception", "log", "close_on_exec"):
+            return [ex.res(st, NONE)]
+        if meth == "reopen_files":
+            o.fields["g_reopened"] = SInt(o.fields["g_reopened"].t + 1) if "g_reopened" in o.fields else SInt(1)
             return [ex.res(st, NONE)]
         return None
 
